@@ -25,11 +25,16 @@ def correspondence(res, tier, rng):
     ncase = 6 if tier == "quick" else 40
     tl, pl, meta = [], [], []
     for i in range(ncase):
-        case = cases.physical_case(rng, tier)
+        case = cases.physical_case(rng, tier, **({"d": 2, "n": 3} if i == 0 else {}))
+        if i == 0:
+            # beyond the cut-off with an additional correlation time that is neither zero nor a
+            # multiple of dt: the back-integrated table keeps changing until step dkmax + 2
+            case["dkmax"], case["tau"] = 1, 0.25 * case["dt"]
+            case["desc"]["dkmax"], case["desc"]["add_correlation_time"] = 1, case["tau"]
         n, L = case["n"], case["d"] ** 2
         unique = bool(i % 2)
         t = cases.make_tempo(case, unique=unique)
-        tline = tensors.tempo_line(t, n)
+        tline = tensors.tempo_line(t, n, res)
         dyn = t.compute(cases.end_time(case), progress_type="silent")
         real_t = [np.array(s).reshape(-1) for s in dyn.states]
         pt = cases.make_pt(case, unique=unique)
@@ -129,7 +134,12 @@ def search(res):
     from . import cases
     rng = random.Random(res.seed + 202)
     for i in range(14):
-        case = cases.physical_case(rng, "quick")
+        case = cases.physical_case(rng, "quick", **({"d": 2, "n": 3 + 2 * i} if i < 2 else {}))
+        if i < 2:
+            # runs beyond the cut-off with an additional correlation time that is not a multiple
+            # of dt (0.25 dt with dkmax 1; 1.5 dt with dkmax 2)
+            case["dkmax"], case["tau"] = 1 + i, (0.25 + 1.25 * i) * case["dt"]
+            case["desc"]["dkmax"], case["desc"]["add_correlation_time"] = case["dkmax"], case["tau"]
         for unique in (False, True):
             worst = 0.0
             for eps in (1e-7, 1e-11):
